@@ -305,6 +305,11 @@ func (p *Proxy) readRequest(ctx *Context, conn net.Conn, brw *bufio.ReadWriter) 
 
 		return nil, errClose
 	case req = <-reqc:
+		// The deadline the caller set has bounded the wait for this request.
+		// The exchange gets a full timeout of its own: a client that was idle
+		// for most of the window must not lose the answer to what it then
+		// asks for.
+		conn.SetDeadline(time.Now().Add(p.timeout))
 	case <-p.closing:
 		return nil, errClose
 	}
